@@ -21,9 +21,10 @@ RULE = ('container histories (strings over {change,file}, every change '
         'and then against each other. Non-trivial = >= 2 containers declare '
         'different encodings; distinct = recipe fingerprint.')
 FLOOR = {'quick': 1500, 'thorough': 30000}
-REQUIRED_REACH = ['DiffXReader.iter_sections',
-                  'DiffXWriter._new_container_section']
+REQUIRED_REACH = ['reader.py:', 'writer.py:']
 REQUIRED_COUNTERS = ['reader_sections_checked', 'writer_bytes_checked',
+                     'dom_writer_bytes_checked',
+                     'rejected_container_calls_injected',
                      'transition:file->change']
 ASSUMPTIONS = [
     'effective encoding = own option, else nearest declaring ancestor '
@@ -79,10 +80,19 @@ def build(history, cont_mask, content_mode, rng=None, main_declares=True,
             return True
         if content_mode == 'alt':
             return cidx[0] % 2 == 0
+        if content_mode == 'main':
+            return True
         return rng.random() < 0.4
 
+    def own_enc():
+        # 'main' mode: content sections re-declare the MAIN encoding under
+        # containers that declare something else (nearest-ancestor-wins)
+        if content_mode == 'main':
+            return pool[0]
+        return nxt()
+
     def mk_pre(inh, tag):
-        own = nxt() if content_declares() else None
+        own = own_enc() if content_declares() else None
         eff = own or inh
         if eff is None:
             return None
@@ -90,7 +100,7 @@ def build(history, cont_mask, content_mode, rng=None, main_declares=True,
                 'line_endings': 'unix', 'mimetype': None, 'explicit': True}
 
     def mk_meta(inh, tag):
-        own = nxt() if content_declares() else None
+        own = own_enc() if content_declares() else None
         if (own or inh) is None:
             return None
         return {'obj': {'k': ['v!|', tag]}, 'encoding': own}
@@ -200,7 +210,7 @@ def _check_reader(data, expected, layout, doc, obs, label):
     # diagnostic probe: top of stack after a container == effective encoding
     probe_note = None
     for s, p in zip(layout, probes):
-        if p is None:
+        if not p:
             obs.count('probe_not_attached')
             break
         if s['kind'] == 'container':
@@ -249,11 +259,16 @@ def run(ctx):
     i = 0
     for h in hs:
         for mask in itertools.product((False, True), repeat=len(h)):
-            for mode in ('inherit', 'own', 'alt'):
+            for mode in ('inherit', 'own', 'alt', 'main'):
                 i += 1
                 if not ctx.mine(i):
                     continue
-                check_case(build(h, mask, mode), obs)
+                doc = build(h, mask, mode)
+                check_case(doc, obs)
+                if i % 3 == 0:
+                    check_dom_writer(doc, obs)
+                if i % 5 == 0:
+                    check_with_rejected_calls(doc, obs, rng)
     obs.exhaustive = None
     obs.count('histories_enumerated', len(hs) if ctx.index == 0 else 0)
     n = ctx.share(ctx.pick(3000, 200000))
@@ -269,6 +284,10 @@ def run(ctx):
         doc = build(h, mask, 'rand', rng, main_declares=rng.random() < 0.85,
                     pool=pool, with_main_content=rng.random() < 0.7)
         check_case(doc, obs, 'random')
+        if k % 4 == 0:
+            check_dom_writer(doc, obs)
+        if k % 4 == 1 and doc.get('encoding'):
+            check_with_rejected_calls(doc, obs, rng)
         if k < 2 and ctx.index == 0:
             obs.sample({'history': h, 'recipe': doc})
     # general recipes with hostile texts as well
@@ -279,3 +298,108 @@ def run(ctx):
 
 def replay(case, obs):
     check_case(case, obs, 'replay')
+
+
+# ---------------------------------------------------------------- extensions
+REJECTED = [('new_change', {'encoding': 'utf\u20138'}),
+            ('new_file', {'encoding': 'utf\u201316'}),
+            ('new_change', {'encoding': 'é'})]
+
+
+def check_with_rejected_calls(doc, obs, rng):
+    """A container call that is rejected (its encoding cannot be written to
+    the ASCII header) must not influence the encoding of anything written
+    afterwards: the bytes must equal the oracle's for the plain document."""
+    from pydiffx.writer import DiffXWriter
+    want, layout = serialize(doc)
+    calls = recipe.writer_calls(doc)
+    stream = MonitoredStream()
+    w = DiffXWriter(stream, **calls[0][2])
+    n_rej = 0
+    try:
+        for name, a, kw in calls[1:]:
+            if rng.random() < 0.4:
+                rname, rkw = rng.choice(REJECTED)
+                try:
+                    getattr(w, rname)(**rkw)
+                    obs.count('hostile_container_call_accepted')
+                    return
+                except Exception:
+                    n_rej += 1
+            getattr(w, name)(*a, **kw)
+    except Exception as e:
+        obs.violation('writer_scope:rejected_container_call_changes_later_'
+                      'behaviour:%s' % type(e).__name__, doc, repr(e)[:200])
+        return
+    obs.count('rejected_container_calls_injected', n_rej)
+    obs.case(('rej', repr(doc)), nontrivial=n_rej > 0)
+    if stream.getvalue() != want:
+        obs.violation('writer_scope:rejected_container_call_changes_later_'
+                      'bytes', doc)
+
+
+def recipe_to_tree(doc):
+    """Build an object-model tree for a recipe through the public API."""
+    from pydiffx.dom import DiffX
+    import copy
+
+    def pre_kw(pre):
+        kw = {'preamble': pre['text'], 'preamble_indent': pre['indent'],
+              'preamble_line_endings': pre['line_endings']}
+        if pre.get('encoding'):
+            kw['preamble_encoding'] = pre['encoding']
+        return kw
+
+    def meta_kw(meta):
+        kw = {'meta': copy.deepcopy(meta['obj'])}
+        if meta.get('encoding'):
+            kw['meta_encoding'] = meta['encoding']
+        return kw
+    kw = {'encoding': doc['encoding']}
+    if doc.get('preamble'):
+        kw.update(pre_kw(doc['preamble']))
+    if doc.get('meta'):
+        kw.update(meta_kw(doc['meta']))
+    d = DiffX(**kw)
+    for ch in doc['changes']:
+        kw = {}
+        if ch.get('encoding'):
+            kw['encoding'] = ch['encoding']
+        if ch.get('preamble'):
+            kw.update(pre_kw(ch['preamble']))
+        if ch.get('meta'):
+            kw.update(meta_kw(ch['meta']))
+        c = d.add_change(**kw)
+        for f in ch['files']:
+            kw = meta_kw(f['meta'])
+            if f.get('encoding'):
+                kw['encoding'] = f['encoding']
+            if f.get('diff'):
+                kw['diff'] = f['diff']['data']
+                kw['diff_line_endings'] = f['diff']['line_endings']
+            c.add_file(**kw)
+    return d
+
+
+def check_dom_writer(doc, obs):
+    """The object-model writer sits on top of the streaming writer: the same
+    nesting must give the same bytes."""
+    if doc.get('encoding') is None:
+        return
+    want, layout = serialize(doc)
+    try:
+        data = recipe_to_tree(doc).to_bytes()
+    except Exception as e:
+        obs.violation('dom_writer_scope:raised:%s' % common.exc_mechanism(e),
+                      doc, repr(e)[:200])
+        return
+    obs.count('dom_writer_bytes_checked', len(data))
+    if data != want:
+        i = next((j for j in range(min(len(data), len(want)))
+                  if data[j] != want[j]), min(len(data), len(want)))
+        sec = [s for s in layout if s['hoff'] <= i][-1]
+        obs.violation('dom_writer_scope:bytes_differ_in:%s' % sec['kind'],
+                      doc, {'section': sec['id'], 'offset': i,
+                            'effective_encoding': sec.get('codec'),
+                            'got': data[i - 5:i + 40],
+                            'want': want[i - 5:i + 40]})
